@@ -112,6 +112,13 @@ CLAIMS = {
         "all 28 configurations are really built (cargo check with the crate's deny(warnings, dead_code, ..)) on every run, and a known-answer digest program is built and run per configuration and compared with the default one.",
    note="Trusted: Lean kernel for the inventory theorems; the translator's cfg scanner; cargo/rustc offline determinism. Feature verif-hooks is outside the property's matrix.",
    tech="Lean 4 decide over a regenerated cfg inventory x 28 configurations + 28 real builds + per-configuration known-answer digests"),
+ 'C14': dict(cat='proof', ref='DESIGN 5 C14, 3.6, 4.5',
+   text="Partial proof + exact trace observation. Proved in Lean (source level): over the inventory of every control construct in the constant-time scope, regenerated on every run, each construct whose guard mentions non-public data "
+        "(or that is an early-exit adaptor, loop exit or `?`) is one of nineteen listed exceptions and the list is tight; the CTEST neutralisations make trip counts input-independent in the model (three-byte and half-byte samplers never "
+        "reject, a signing attempt never restarts). What rustc/LLVM emit cannot be exhibited by the model: observed on every run as exact equality of edge sequences and (load|store, size, address) sequences of the optimised build, "
+        "instrumented in every crate, across RNG outputs for the whole dudect pipeline (3 sets) and across secret vectors for 20 kernel groups; three sensitivity controls must differ.",
+   note="Trusted: Lean kernel; the translator's construct scanner and its per-function table of public variables; LLVM sanitizer-coverage callbacks as the observation of control flow and addresses; same-process comparison (one ASLR layout).",
+   tech="Lean 4 decide over a regenerated leak-site inventory + CTEST no-rejection lemmas + sanitizer-coverage edge/address trace equality"),
 }
 
 ORDER = ['C%02d' % i for i in range(1, 19)]
